@@ -49,7 +49,7 @@ def lifecycles(draw, tier):
             c["params"]["d"] = [0.0] * na
     ops = []
     for _ in range(draw(st.integers(1, 6))):
-        k = draw(st.sampled_from(["mutate_am", "mutate_ph", "reinit", "train", "train", "train_no_bases", "grad_slices", "poison_reinit", "rbm_init_zero", "rbm_init_random"]))
+        k = draw(st.sampled_from(["mutate_am", "mutate_ph", "reinit", "train", "train", "train_no_bases", "grad_slices", "poison_reinit", "rbm_init_zero", "rbm_init_random", "sibling_reinit_then_train"]))
         op = {"op": k}
         if k.startswith("mutate"):
             op["delta"] = draw(st.floats(0.5, 2.0, allow_nan=False, width=64))
@@ -219,6 +219,27 @@ def check(c):
                 require(storage_disjoint(state.rbm_am, state.rbm_ph), "rbm-init:aliased-networks", "networks share storage after initialize_parameters")
             if t == "density":
                 aux0 = torch.zeros_like(state.rbm_ph.aux_bias)
+            labels.append(k)
+        elif k == "sibling_reinit_then_train":
+            # shared object: a SECOND state is built on the same user module; this state trains, the sibling reinitialises (the module gets new
+            # parameter objects), this state trains again: the second training must move the module's CURRENT parameters
+            if c["how"] != "module":
+                continue
+            kw_ = {"input_bases": bases} if has_ph else {}
+            sib = cls(n, gpu=False, module=module)
+            guard_, div_ = gen.divergence_guard()
+            state.fit(data, epochs=1, pos_batch_size=2, lr=0.05, callbacks=[guard_], **kw_)
+            sib.reinitialize_parameters()
+            cur = snap(module)
+            require(state.rbm_am is module and ptrs(state.rbm_am) == ptrs(module), "shared-module:amplitude-detached", "after a sibling state reinitialised the shared module, this state's amplitude network is no longer that module")
+            state.fit(data, epochs=1, pos_batch_size=2, lr=0.05, callbacks=[guard_], **kw_)
+            if div_[0]:
+                state.stop_training = False
+                return {"nontrivial": False, "excluded": 1, "labels": sorted(set(labels + ["diverged"]))}
+            require(not same(snap(module), cur), "shared-module:training-misses-current-parameters",
+                    "after a sibling state built on the same module reinitialised it, training this state no longer moves the module's current parameters")
+            if t == "density":
+                aux0 = state.rbm_ph.aux_bias.detach().clone()
             labels.append(k)
         elif k == "train":
             oc, oa = {"sgd": (torch.optim.SGD, {}), "sgd_mom_wd": (torch.optim.SGD, {"momentum": 0.9, "weight_decay": 0.01}), "adam": (torch.optim.Adam, {}),
